@@ -412,19 +412,30 @@ func transTypeLfd(transTV func(TypeVar) FType, lfd LetFuncDef) LetFuncDef {
 	return LetFuncDef{Fvar: nfvar, Params: nparams, Body: nbody}
 }
 
-func resolveGuarded(visiting dict.Dict[string, bool], name string, recurse func(TypeVar) FType, rcand FType) FType {
-	on, _ := frt.Destr2(dict.TryFind(visiting, name))
+type ResolveTrace struct {
+	Visiting dict.Dict[string, bool]
+	Done     dict.Dict[string, FType]
+}
+
+func resolveGuarded(trace ResolveTrace, name string, recurse func(TypeVar) FType, rcand FType) FType {
+	on, _ := frt.Destr2(dict.TryFind(trace.Visiting, name))
 	frt.IfOnly(on, (func() {
 		frt.PipeUnit(frt.Sprintf1("Cyclic type is not supported: %s", name), PanicNow)
 	}))
-	dict.Add(visiting, name, true)
-	res := transTVFType(recurse, rcand)
-	dict.Add(visiting, name, false)
-	return res
+	memo, hit := frt.Destr2(dict.TryFind(trace.Done, name))
+	return frt.IfElse(hit, (func() FType {
+		return memo
+	}), (func() FType {
+		dict.Add(trace.Visiting, name, true)
+		res := transTVFType(recurse, rcand)
+		dict.Add(trace.Visiting, name, false)
+		dict.Add(trace.Done, name, res)
+		return res
+	}))
 }
 
-func resolveOneTypeVarV(visiting dict.Dict[string, bool], rsv Resolver, tv TypeVar) FType {
-	recurse := (func(_r0 TypeVar) FType { return resolveOneTypeVarV(visiting, rsv, _r0) })
+func resolveOneTypeVarV(trace ResolveTrace, rsv Resolver, tv TypeVar) FType {
+	recurse := (func(_r0 TypeVar) FType { return resolveOneTypeVarV(trace, rsv, _r0) })
 	ei := rsLookupEI(rsv, tv.Name)
 	rcand := ei.resType
 	switch _v15 := (rcand).(type) {
@@ -433,16 +444,16 @@ func resolveOneTypeVarV(visiting dict.Dict[string, bool], rsv Resolver, tv TypeV
 		return frt.IfElse(frt.OpEqual(tv2.Name, tv.Name), (func() FType {
 			return rcand
 		}), (func() FType {
-			return resolveGuarded(visiting, tv.Name, recurse, rcand)
+			return resolveGuarded(trace, tv.Name, recurse, rcand)
 		}))
 	default:
-		return resolveGuarded(visiting, tv.Name, recurse, rcand)
+		return resolveGuarded(trace, tv.Name, recurse, rcand)
 	}
 }
 
 func resolveOneTypeVar(rsv Resolver, tv TypeVar) FType {
-	visiting := dict.New[string, bool]()
-	return resolveOneTypeVarV(visiting, rsv, tv)
+	trace := ResolveTrace{Visiting: dict.New[string, bool](), Done: dict.New[string, FType]()}
+	return resolveOneTypeVarV(trace, rsv, tv)
 }
 
 func resolveType(rsv Resolver, ftp FType) FType {
